@@ -53,6 +53,14 @@ impl<K: Clone + PartialEq + Eq + Hash + std::fmt::Debug + std::cmp::PartialOrd, 
         Arc::clone(entry)
     }
 
+    /// Forget an entry which was put into wmap but couldn't be populated,
+    /// so that it can't be committed in this (empty) state by someone else
+    pub(crate) fn remove_from_wmap(&self, key: &K) {
+        let mut w = self.wmap.lock().unwrap();
+
+        w.remove(key);
+    }
+
     /// Flush key/value pairs from wmap to rmap
     pub(crate) fn commit_wmap(&self) -> Option<Vec<(K, AsyncLruCacheEntry<V>)>> {
         let mut w = self.wmap.lock().unwrap();
